@@ -31,7 +31,7 @@ func xOf(n spec.Num) xnum {
 	return x
 }
 
-func (x xnum) isInt() bool  { return x.inf == 0 && x.r.IsInt() }
+func (x xnum) isInt() bool { return x.inf == 0 && x.r.IsInt() }
 func (x xnum) sign() int {
 	if x.inf != 0 {
 		return x.inf
